@@ -256,4 +256,20 @@ SDev3(dummy) ==
        t \in {x \in DevTargets : x.k = "leafd"},
        d1 \in {Dv("add", << Cfg("false") >>), Dv("replace", << S1("type", "int8") >>)},
        d2 \in {Dv("replace", << S1("default", "w") >>), Dv("add", << S1("units", "u") >>), Dv("replace", << S1("mandatory", "false") >>)} }
+
+\* ---- S_split: a module body partitioned over submodules (C13) ------------------------------
+SplitStmts == << Stmt("grouping", "g", << Leaf("gl") >>), Leaf("l1"),
+                 Stmt("list", "li", << Stmt("key", "k", <<>>), Leaf("k") >>),
+                 Stmt("container", "c2", << Leaf("x") >>) >>
+PartBody(asg, part) == SelectSeq([k \in 1..4 |-> [s |-> SplitStmts[k], p |-> asg[k]]], LAMBDA x : x.p = part)
+Body(asg, part) == LET b == PartBody(asg, part) IN [k \in 1..Len(b) |-> b[k].s]
+SplitProg(asg, inc) ==
+  LET mInc == CASE inc = "flat" -> <<"s1", "s2">> [] inc = "nested" -> <<"s1">> [] inc = "both" -> <<"s1", "s2">> [] inc = "rev" -> <<"s2">>
+      s1Inc == CASE inc \in {"nested", "both"} -> <<"s2">> [] OTHER -> <<>>
+      s2Inc == CASE inc = "rev" -> <<"s1">> [] OTHER -> <<>>
+      m == Mod("m", NoImp, mInc, Body(asg, "m") \o << Stmt("container", "c1", << Uses("", "g") >>) >>)
+      b == Mod("b", [x \in {"m"} |-> "m"], <<>>, << Aug(<< Q("m","c2") >>, << Leaf("y") >>), Aug(<< Q("m","c1") >>, << Leaf("z") >>) >>)
+  IN Prog(("m" :> m) @@ ("s1" :> Sub("s1", "m", NoImp, s1Inc, Body(asg, "s1"))) @@ ("s2" :> Sub("s2", "m", NoImp, s2Inc, Body(asg, "s2"))) @@ ("b" :> b))
+SSplit(dummy) == { SplitProg(asg, inc) : asg \in [1..4 -> {"m", "s1", "s2"}], inc \in {"flat", "nested", "both", "rev"} }
+MCOrder3 == <<"m", "s1", "s2", "b">>
 ====
